@@ -191,6 +191,10 @@ class Ref:
             return
         if init[0] != "list":
             raise Invalid("scalar expression for an aggregate")
+        # 6.7.9p14: the string literal initialising a character array may be enclosed in braces
+        if len(init[1]) == 1 and not init[1][0][0] and init[1][0][1][0] == "str" and str_fits(init[1][0][1], t):
+            self.init_string(t, init[1][0][1], path)
+            return
         if any(a.startswith(path) for a in self.assigned) and path != "":
             # re-initialising a whole aggregate after one of its members (C11 6.7.9p19 / DR 413): not generated
             raise Invalid("braced re-initialisation of a partly initialised aggregate")
@@ -310,6 +314,8 @@ class Ref:
                 return self
             if init[0] != "list":
                 raise Invalid("bad initializer for array")
+            if len(init[1]) == 1 and not init[1][0][0] and init[1][0][1][0] == "str" and str_fits(init[1][0][1], Array(t.elem, 1)):
+                return self.run(init[1][0][1])           # braced string literal for an array of unknown bound
             # two passes: find the bound, then initialize
             probe = Ref(Array(t.elem, 10 ** 6))
             probe_vals_before = probe.vals
@@ -394,7 +400,8 @@ class Gen:
                 return ("list", [([], self.val())], False)
             return self.val()
         if isinstance(t, Array) and isinstance(t.elem, Scalar) and self.prefixes(t.elem) and r.random() < 0.5:
-            return self.string_for(t)
+            st_ = self.string_for(t)
+            return ("list", [([], st_)], r.random() < 0.4) if r.random() < 0.3 else st_
         items = []
         budget = r.randrange(1, self.nleaves(t) + 1)
         count = r.randrange(1, min(6, budget) + 1)        # C11 has no empty initializer list
@@ -413,7 +420,8 @@ class Gen:
             else:
                 if isinstance(st, Scalar) or r.random() < 0.4 or depth >= 2:
                     if isinstance(st, Array) and isinstance(st.elem, Scalar) and self.prefixes(st.elem) and r.random() < 0.5:
-                        items.append((chain, self.string_for(st)))
+                        st_ = self.string_for(st)
+                        items.append((chain, ("list", [([], st_)], False) if r.random() < 0.3 else st_))
                     else:
                         items.append((chain, self.val()))
                 else:
